@@ -202,6 +202,17 @@ class StorageReplayer:
                 data = None if d['v'] == ('gone',) else self.data(o, d)
                 st.restore(self.P(o), self._tid_of_txn(state), data, '', self.tids.real(prev) if prev else None, self.t)
             elif action == 'Vote':
+                if self.opts.get('second_open') and self.kind == 'file':
+                    # another process (here: another storage object) tries to open the same file for writing while
+                    # the transaction's records sit in the .tmp file: it must be refused WITHOUT any effect
+                    from ZODB.FileStorage import FileStorage
+                    try:
+                        FileStorage(self.path).close()
+                        got_second = 'opened'
+                    except Exception as ex:
+                        got_second = type(ex).__name__
+                    if got_second != 'LockError':
+                        raise AssertionError('a second writable open of the data file: %s' % got_second)
                 r = st.tpc_vote(self.t)
                 extra['oids'] = frozenset(self.U(x) for x in (r or ()))
             elif action == 'VoteFail':
